@@ -21,6 +21,7 @@ MUTANTS = {
  'm14_cli_min_crossrefs_dropped': ('pybtex/__main__.py', "        engine.make_bibliography(filename, **options)", "        options.pop('min_crossrefs', None)\n        engine.make_bibliography(filename, **options)"),
  'm15_cli_style_option_dropped': ('pybtex/__main__.py', "        ext = path.splitext(filename)[1]", "        options['style'] = None\n        ext = path.splitext(filename)[1]"),
  'm16_bibdata_sorted_set': ('pybtex/__init__.py', "for filename in aux_data.data]", "for filename in sorted(set(aux_data.data))]"),
+ 'm17_bst_script_cache_by_name': ('pybtex/bibtex/__init__.py', "        bst_script = bst.parse_file(bst_filename, bst_encoding)\n", "        if (style, bst_encoding) not in _BST_CACHE:\n            _BST_CACHE[(style, bst_encoding)] = list(bst.parse_file(bst_filename, bst_encoding))\n        bst_script = _BST_CACHE[(style, bst_encoding)]\n"),
  # must NOT alarm: renamed local, reordered independent statements, reworded messages
  'h1_harmless_refactoring': [
    ('pybtex/__init__.py', "        base_filename = path.splitext(aux_filename)[0]\n        bib_filenames = [filename + bib_format.default_suffix for filename in aux_data.data]\n",
@@ -41,6 +42,9 @@ def run(name):
         if s.count(old) != 1:
             print(name, 'PATCH DOES NOT APPLY (%d occurrences) in %s' % (s.count(old), f)); return
         open(p, 'w').write(s.replace(old, new))
+    if name.startswith('m17'):
+        p = os.path.join(d, 'pybtex/bibtex/__init__.py'); t = open(p).read()
+        open(p, 'w').write(t.replace('class BibTeXEngine(Engine):', '_BST_CACHE = {}\n\n\nclass BibTeXEngine(Engine):'))
     env = dict(os.environ, VERIF_REPO=d, VERIF_EVIDENCE_DIR=d + '/evidence', VERIF_REPLAY_DIR=d + '/replays')
     p = subprocess.run([os.path.join(HERE, 'check'), 'C06'], env=env, capture_output=True, text=True)
     viol = [l for l in p.stdout.split('\n') if l.startswith('VIOLATION')]
